@@ -33,6 +33,13 @@ func constString(c *ssa.Const) string {
 }
 
 func (fr *Frame) execInstr(in ssa.Instruction) {
+	defer func() {
+		if v, ok := in.(ssa.Value); ok {
+			if x := fr.vals[v]; x != nil && fr.isNamedVar(v) {
+				fr.seedVal(x)
+			}
+		}
+	}()
 	switch i := in.(type) {
 	case *ssa.Alloc:
 		fr.vals[i] = fr.doAlloc(i.Type().(*types.Pointer).Elem(), i.Comment, i.Type())
@@ -468,13 +475,19 @@ func (fr *Frame) binop(i *ssa.BinOp) *Val {
 		}
 		return arith(app("-", x.t, y.t))
 	case token.MUL:
+		// operands of a multiplication are typically logical indices: seed them
 		if _, isC := i.X.(*ssa.Const); isC {
+			fr.seedVal(y)
 			return arith(app("*", x.t, y.t))
 		}
 		if _, isC := i.Y.(*ssa.Const); isC {
+			fr.seedVal(x)
 			return arith(app("*", x.t, y.t))
 		}
-		return arith(app("*", x.t, y.t))
+		fr.seedVal(x)
+		// symbolic * symbolic: uninterpreted MUL with monotonicity lemmas (prelude)
+		fr.vc.assumed["products of two non-constants are an uninterpreted MUL constrained by monotonicity/sign lemmas of integer multiplication"] = true
+		return arith(app("MUL", x.t, y.t))
 	case token.QUO:
 		fr.oblige("P0", fr.ordName("P0/div-zero"), app("distinct", y.t, "0"))
 		if uns {
@@ -520,6 +533,15 @@ func (fr *Frame) binop(i *ssa.BinOp) *Val {
 			}
 			return arith(app("*", x.t, bigLit(pow2[k])))
 		}
+		if i.Op == token.SHR && x.bfTerm != "" && x.bfLo == k {
+			// (x & mask[lo,hi)) >> lo is the bit field itself
+			v := &Val{t: x.bfTerm, sort: sInt, typ: t}
+			if x.mask != nil {
+				v.mask = new(big.Int).Rsh(x.mask, uint(k))
+			}
+			fr.eng.bvCert(fmt.Sprintf("shr-field %d", k))
+			return v
+		}
 		if i.Op == token.SHR {
 			v := mk(app("div", x.t, bigLit(pow2[k])))
 			if x.mask != nil {
@@ -542,7 +564,10 @@ func (fr *Frame) binop(i *ssa.BinOp) *Val {
 	panic(fmt.Sprintf("%s: binop %s", fr.pos(), i.Op))
 }
 
-// bitAnd handles x & C for a contiguous constant mask C exactly.
+// bitAnd handles x & C for a contiguous constant mask C: the result is the
+// bit field BITS_lo_hi(x) * 2^lo, where BITS_lo_hi is an uninterpreted
+// function with a range axiom (and its exact div/mod definition only in
+// functions whose contract says `attr bits exact`).
 func (fr *Frame) bitAnd(i *ssa.BinOp, x, y *Val, mk func(string) *Val) *Val {
 	var cm *big.Int
 	var other *Val
@@ -558,15 +583,12 @@ func (fr *Frame) bitAnd(i *ssa.BinOp, x, y *Val, mk func(string) *Val) *Val {
 			return &Val{t: "0", sort: sInt, typ: i.Type(), mask: big.NewInt(0)}
 		}
 		if lo, hi, ok := contiguousMask(cm); ok && isUnsigned(i.Type()) {
-			var term string
-			width := pow2[hi-lo]
-			if lo == 0 {
-				term = app("mod", other.t, bigLit(width))
-			} else {
-				term = app("*", app("mod", app("div", other.t, bigLit(pow2[lo])), bigLit(width)), bigLit(pow2[lo]))
+			b := fr.eng.bitsTerm(other.t, lo, hi)
+			term := b
+			if lo > 0 {
+				term = app("*", b, bigLit(pow2[lo]))
 			}
-			v := mk(term)
-			v.mask = cm
+			v := &Val{t: term, sort: sInt, typ: i.Type(), mask: cm, bfTerm: b, bfLo: lo}
 			if other.mask != nil {
 				v.mask = new(big.Int).And(cm, other.mask)
 			}
